@@ -53,6 +53,10 @@ def _read_chain(db, f, d, local, depth=0, seen=None):
                 if l is not None:
                     frm = f.local_ty(l)
                     to = f.local_ty(local)
+                    # checked conversions return Result<T, _> / Option<T>: the widening is to T
+                    mm = re.match(r"^core::(?:result::Result|option::Option)<(\w+)[,>]", to or "")
+                    if mm:
+                        to = mm.group(1)
                     for p, cs in _read_chain(db, f, d, l, depth + 1, seen):
                         extra = [(frm, to)] if frm in BITS and to in BITS and frm != to else []
                         out.append((p, cs + extra))
